@@ -9,6 +9,7 @@ Python counterparts (repaired tree: fixes C20a, C20b, C20c):
 * `FlatTrace.serialize`                           ↦ `serializeVec`
 * `app.create_app` (routes over one shared, read-only system) ↦ `respond`, `serveAll`
 * `loader/parameters.py: build_api_values_history`, `get_value` ↦ `servedHistory`, `apiGetValue`
+* `loader/parameters.py: build_api_scale`                       ↦ `buildApiScale` (`scaleRow`, `servedScale`), `apiScaleAt`
 * `loader/variables.py: build_formulas` + the `end` entry      ↦ `servedFormulas`, `apiFormulaAt`
   (`Variable.get_formula` ↦ `engineFormulaAt`)
 * `tools/test_runner.py: YamlItem.runtest / check_output / check_variable` ↦ `verdict`,
@@ -407,6 +408,63 @@ def engineFormulaAt (formulas : List (Int × V)) (stop : Option Int) (d : Int) :
   | none => latestStarted d formulas
 
 end Listings
+
+/-! ### scales (`build_api_scale`) -/
+
+/-- a bracket of a scale as `build_api_scale` reads it: the served histories (`build_api_values_history`)
+of its threshold and of its rate / amount -/
+structure ApiBracket where
+  thresholds : List (Int × Option Rat)
+  values : List (Int × Option Rat)
+deriving Repr
+
+/-- `dates`: every date at which something changes in the scale (with repetitions; Python makes a set) -/
+def bracketDates (brs : List ApiBracket) : List Int :=
+  brs.flatMap (fun b => b.thresholds.map (·.1) ++ b.values.map (·.1))
+
+/-- `api_scale[date][threshold] = value` : a `dict` assignment -/
+def rowSet (t : Rat) (v : Option Rat) : List (Rat × Option Rat) → List (Rat × Option Rat)
+  | [] => [(t, v)]
+  | (t', v') :: r => if t' = t then (t, v) :: r else (t', v') :: rowSet t v r
+
+/-- the row for date `d`: `{threshold at d: value at d}` over the brackets whose threshold is not null at `d` -/
+def scaleRow (d : Int) (brs : List ApiBracket) : List (Rat × Option Rat) :=
+  brs.foldl (fun row b => match apiGetValue d b.thresholds with
+    | some t => rowSet t (apiGetValue d b.values) row
+    | none => row) []
+
+def dedupDates : List Int → List Int
+  | [] => []
+  | x :: xs => x :: (dedupDates xs).filter (· ≠ x)
+
+/-- the loop over `dates`: a date at which no bracket has a threshold gets no entry (`none` = JSON null) -/
+def servedScale (brs : List ApiBracket) : List (Int × Option (List (Rat × Option Rat))) :=
+  (dedupDates (bracketDates brs)).filterMap (fun d =>
+    if (scaleRow d brs).isEmpty then none else some (d, some (scaleRow d brs)))
+
+/-- `max(brackets[0]["thresholds"].keys())` with its value -/
+def latestEntry : List (Int × Option Rat) → Option (Int × Option Rat)
+  | [] => none
+  | (k, v) :: r =>
+    match latestEntry r with
+    | some (k', v') => if k' < k then some (k, v) else some (k', v')
+    | none => some (k, v)
+
+/-- `build_api_scale`: the rows, then "a parameter is stopped if its first bracket is stopped":
+`api_scale[latest date of the first threshold] = None` when that threshold is null -/
+def buildApiScale (brs : List ApiBracket) : List (Int × Option (List (Rat × Option Rat))) :=
+  match brs with
+  | [] => servedScale brs
+  | b0 :: _ =>
+    match latestEntry b0.thresholds with
+    | some (d, none) => setKey d none (servedScale brs)
+    | some (_, some _) => servedScale brs
+    | none => servedScale brs
+
+/-- what a reader of `/parameter/<scale>` takes to be in force on day `d`: the row of the latest date
+on or before `d` (`none` = no row or a stopped scale), without the brackets whose value is null -/
+def apiScaleAt (d : Int) (served : List (Int × Option (List (Rat × Option Rat)))) : Option (List (Rat × Rat)) :=
+  (apiGetValue d served).map (fun row => row.filterMap (fun tv => tv.2.map (fun v => (tv.1, v))))
 
 mutual
 /-- `/parameters`: the ids (dotted) of the descendants that are not nodes, in `get_descendants`
